@@ -155,6 +155,27 @@ def _split_at_k(v, i, k):
     return a or b
 
 
+def _whole(t, i):
+    """t is all of i: i | i[..] | i[..len(i)] | i.split_at(len(i)).0"""
+    n = ("call", LEN, (i,))
+    if t == i:
+        return True
+    if t[0] == "index" and t[1] == i and t[2][0] == "struct":
+        f = dict(t[2][2])
+        return t[2][1].endswith("RangeFull") or (t[2][1].endswith("RangeTo") and f.get("end") == n) or (t[2][1].endswith("::Range") and f.get("start") == ("lit", "int", 0) and f.get("end") == n)
+    return t[0] == "tproj" and t[2] == 0 and t[1][0] == "call" and t[1][1].endswith("::split_at") and t[1][2] == (i, n)
+
+
+def _empty_tail(t, i):
+    """t is the empty slice (at the end of i): &[] | i[len(i)..] | i.split_at(len(i)).1"""
+    n = ("call", LEN, (i,))
+    if t == ("array", ()):
+        return True
+    if t[0] == "index" and t[1] == i and t[2][0] == "struct" and t[2][1].endswith("RangeFrom") and dict(t[2][2]).get("start") == n:
+        return True
+    return t[0] == "tproj" and t[2] == 1 and t[1][0] == "call" and t[1][1].endswith("::split_at") and t[1][2] == (i, n)
+
+
 def _take_while_position(ck, rid, f, i, pname, rets):
     ps = f["ps"]
     n_some = n_none = 0
@@ -187,9 +208,7 @@ def _take_while_position(ck, rid, f, i, pname, rets):
                      "take_while returns %s when a byte fails the predicate at pos; expected Ok((input[pos..], input[..pos]))" % show_term(v), data=data)
         else:
             n_none += 1
-            ok = v[0] == "ctor" and v[1] == OK and v[2][0][0] == "tuple" and len(v[2][0][1]) == 2 and v[2][0][1][1] == i and (
-                v[2][0][1][0] == ("array", ()) or (v[2][0][1][0][0] == "index" and v[2][0][1][0][1] == i and v[2][0][1][0][2][0] == "struct" and v[2][0][1][0][2][1].endswith("RangeFrom")
-                                                    and dict(v[2][0][1][0][2][2]).get("start") == ("call", LEN, (i,))))
+            ok = v[0] == "ctor" and v[1] == OK and v[2][0][0] == "tuple" and len(v[2][0][1]) == 2 and _whole(v[2][0][1][1], i) and _empty_tail(v[2][0][1][0], i)
             ck.judge(ok, rid, key, "every byte satisfies the predicate: Ok((empty, input))", "take_while returns %s when no byte fails the predicate; expected Ok((empty, input))" % show_term(v), data=data)
     ck.judge(n_some >= 1 and n_none >= 1, rid, "take_while:cases", "both outcomes of the search are handled", "take_while lacks an outcome of the search (%d found / %d not found)" % (n_some, n_none))
 
